@@ -217,7 +217,7 @@ class FibRun:
             # life 400 ticks stands for "no InterestLifetime element": the default of 4000 ms applies
             life_ms = None if it['life'] == 400 else it['life'] * TICK_MS
             # components below every attached prefix do not change the route; unusual ones must not disturb delivery
-            sfx = [[], [enc.Component.from_bytes(bytes(9), enc.Component.TYPE_SEGMENT)], [enc.Component.from_bytes(b'')],
+            sfx = [[], [enc.Component.from_bytes(b'\x01' + bytes(8), enc.Component.TYPE_SEGMENT)], [enc.Component.from_bytes(b'')],
                    [enc.Component.from_bytes(b'x', 65535)]][i % 4]
             w, fullname = enc.make_interest(enc.Name.from_str(nm(it['name'])) + sfx, enc.InterestParam(lifetime=life_ms, nonce=NONCE0 + i),
                                             app_param, signer=signer, need_final_name=True)
